@@ -358,6 +358,16 @@ func (k KnownFinding) matches(oc *Outcome, f Failure) bool {
 	return false
 }
 
+func knownCovers(known []KnownFinding, classes []string, f Failure) bool {
+	oc := Outcome{Classes: classes}
+	for _, k := range known {
+		if k.matches(&oc, f) {
+			return true
+		}
+	}
+	return false
+}
+
 type Violation struct {
 	Case     WireCase  `json:"case"`
 	Failures []Failure `json:"failures"`
@@ -505,6 +515,43 @@ func parentMain(propID, tier string, seed uint64, outPath string, only *WireCase
 					}
 				}
 				oc, ok := w.runOn(wc, timeout)
+				if !ok && len(oc.Failures) > 0 && oc.Failures[0].Kind == "timeout" && p.Classify != nil && knownCovers(known, p.Classify(wc.Data), oc.Failures[0]) {
+					// a listed non-termination: no need to confirm it with a longer limit
+					oc.Classes = p.Classify(wc.Data)
+					w.kill()
+					w = nil
+					results <- item{wc, oc}
+					continue
+				}
+				if !ok && len(oc.Failures) > 0 && oc.Failures[0].Kind == "timeout" {
+					// confirm on a fresh worker with a much longer limit: a loaded machine must
+					// not turn a slow case into a failure
+					w.kill()
+					if w2, err := startWorker(propID); err == nil {
+						oc2, ok2 := w2.runOn(wc, 6*timeout)
+						if ok2 {
+							oc, ok, w = oc2, true, w2
+							oc.Tags = append(oc.Tags, "slow-case")
+						} else {
+							w2.kill()
+							w = nil
+							if len(oc2.Failures) > 0 && oc2.Failures[0].Kind != "timeout" {
+								oc = oc2
+							} else {
+								oc.Failures[0].Detail = fmt.Sprintf("no answer within %v (confirmed alone with %v)", timeout, 6*timeout)
+							}
+						}
+					} else {
+						w = nil
+					}
+					if !ok && p.Classify != nil {
+						oc.Classes = p.Classify(wc.Data)
+					}
+					if !ok {
+						results <- item{wc, oc}
+						continue
+					}
+				}
 				if !ok && p.Classify != nil {
 					oc.Classes = p.Classify(wc.Data)
 				}
